@@ -29,6 +29,8 @@ def run(pid, tier, seed, procs=None):
     cfg = TIERS[tier]
     mir, mirhash, mir_s = common.dump_mir()
     N = cfg['N_heavy'] if pid in HEAVY and tier == 'quick' else cfg['N']
+    if pid in ('C02', 'C11') and tier == 'quick':
+        N = 5
     if pid in HEAVY and tier == 'thorough':
         N = cfg['N'] if pid in ('C02', 'C11') else cfg['N_heavy']
     if os.environ.get('VERIF_N'):
@@ -38,6 +40,12 @@ def run(pid, tier, seed, procs=None):
         n_op = N
         if kind == 'key' and N > cfg['N_key']:
             n_op = cfg['N_key']
+        if tier == 'quick' and pid not in HEAVY and kind in ('map', 'set') and op in ('delete', 'delete_by_index'):
+            n_op = 6        # removal cases with a non-trivial subtree on both sides need 5 entries
+        if tier == 'quick' and pid in ('C02', 'C11') and kind == 'key' and op in ('get_value', 'first_less', 'first_less_or_equal', 'first_less_or_equal_by'):
+            n_op = 4        # the lazy-expiry queries at N=5 are part of C01 / C06, which discharge the invariant too
+        if tier == 'quick' and pid == 'C01' and kind == 'key' and op == 'insert':
+            n_op = 6        # an expired node with a child below a node that has another child, plus a free slot: 4 entries + 1
         if kind in ('map', 'set') and op in READ_ONLY and pid not in HEAVY:
             n_op = cfg['N_readonly'] - (1 if pid == 'C08' and tier == 'quick' else 0)       # read-only operations are cheap: larger arenas (rarer shapes, e.g. a 3-deep inner spine needs 6 entries)
         spec = {'kind': kind, 'op': op, 'N': n_op, 'timeout_ms': cfg['timeout_ms'], 'check_callbacks': pid == 'C18', 'tags': plan.tags_for(pid)}
@@ -116,8 +124,14 @@ def finish(pid, tier, seed, t0, mirhash, mir_s, N, cfg, step_res, hist_res, lemm
     agg = jobs.merge_results(step_res)
     inconclusive = []
     tv = (audit or {}).get('translator_validation')
-    if tv and tv['mismatches']:
-        inconclusive.append(f'translator validation: MIR executor and native crate disagree on a concrete history: {json.dumps(tv["mismatches"][0])[:600]}')
+    tv_findings = []
+    if tv:
+        real = [b for b in tv['mismatches'] if b.get('why') or b.get('executor') != b.get('native')]
+        if real:
+            inconclusive.append(f'translator validation: MIR executor and native crate disagree on a concrete history: {json.dumps(real[0])[:600]}')
+        for b in tv['mismatches']:
+            if b not in real and b.get('native_findings'):
+                tv_findings.append(b)
     if audit and audit.get('offending'):
         inconclusive.append(f'cleanup path touches non-local state (unwinding after a callback panic is not modelled): {audit["offending"][:2]}')
     for l in lemmas:
@@ -166,6 +180,15 @@ def finish(pid, tier, seed, t0, mirhash, mir_s, N, cfg, step_res, hist_res, lemm
     for u in unconfirmed_hist:
         inconclusive.append(f'history counterexample for {u["tag"]} does not reproduce natively (encoding suspect): {json.dumps(u["history"])[:300]}')
     # ---- step violations must be confirmed by a replayed history with the same tag and operation
+    # concrete random histories of the translator validation on which the native reference model itself reports a violation
+    for b in tv_findings:
+        fs = [f for f in b['native_findings'] if mine(f[1])]
+        if fs:
+            h = b['history']
+            opi = fs[0][0]
+            op = h['ops'][opi]['op'] if 0 <= opi < len(h['ops']) else h['ops'][-1]['op']
+            confirmed.append({'key': finding_key(fs[0][1], h['kind'], op), 'tag': fs[0][1], 'kind': h['kind'], 'op': op, 'history': h,
+                              'native': [f'dev: op#{f[0]} {f[1]} {f[2]}' for f in fs][:4], 'via': 'translator-validation history (concrete, not solver-found)'})
     # ---- step counterexamples without a confirming history: guided native search for a history reaching the pre-state
     def is_conf(kind, op):
         ck = {(c['kind'], c['op']) for c in confirmed}
@@ -183,7 +206,17 @@ def finish(pid, tier, seed, t0, mirhash, mir_s, N, cfg, step_res, hist_res, lemm
             h = None
         if h is None:
             continue
-        nat = [common.run_replay(h, 'dev'), common.run_replay(h, 'release')]
+        if pid == 'C18':
+            # C18: the guided history ends with the operation under test; run it natively with the N-th callback panicking
+            nat = []
+            for fuse in range(0, 14):
+                r1 = common.run_replay(h, 'dev', fuse=fuse)
+                nat.append(r1)
+                if any(mine(f[1]) for f in r1['findings']):
+                    h = dict(h, fuse=fuse)
+                    break
+        else:
+            nat = [common.run_replay(h, 'dev'), common.run_replay(h, 'release')]
         hit = [(p['profile'], f) for p in nat for f in p['findings'] if mine(f[1])]
         if hit:
             hop = h['ops'][-1]['op']
@@ -292,7 +325,7 @@ def replay_file(path):
     h = d['history']
     bad = 0
     for prof in ('dev', 'release'):
-        r = common.run_replay(h, prof)
+        r = common.run_replay(h, prof, fuse=h.get('fuse'))
         print(prof, json.dumps(r['findings']))
         bad += len(r['findings'])
     return 1 if bad else 0
